@@ -1501,7 +1501,11 @@ class SQLParser:
             result.append(cls._parse_single_select_statement(scanner, with_clause, sql_type))
         if len(result) == 1:
             return result[0]
-        return node.ASTUnionSelectStatement(with_clause=with_clause, elements=tuple(result))
+        # WITH 子句只记录在组合语句上，而不在每个 SELECT 分支上重复记录
+        elements = tuple(element.set_with_clauses(node.ASTWithClause.empty())
+                         if isinstance(element, node.ASTSingleSelectStatement) else element
+                         for element in result)
+        return node.ASTUnionSelectStatement(with_clause=with_clause, elements=elements)
 
     @classmethod
     def parse_config_string_expression(cls, scanner_or_string: ScannerOrString,
